@@ -51,17 +51,19 @@ deriving Repr, DecidableEq
 def jobIndex (ord : List Nat) (j : Nat) : Option Nat :=
   (ord.zipIdx 1).foldl (fun acc p => if p.1 = j then some p.2 else acc) none
 
-/-- the check loop: first offending `(j, d)` in `ordered_jobs` × `j._dependencies` order decides the exception -/
+/-- inner loop `for d in j._dependencies: if job_index[d] >= i: raise` (`none` = no exception for this job) -/
+def checkJob (ord : List Nat) (j : Nat) : List Nat → Option Verdict
+  | [] => none
+  | d :: ds =>
+    match jobIndex ord d, jobIndex ord j with
+    | some a, some i => if a ≥ i then some .cycle else checkJob ord j ds
+    | _, _ => some .keyError
+
+/-- the check loop: the first offending `(j, d)` in `ordered_jobs` × `j._dependencies` order decides the exception -/
 def checkDeps (deps : Nat → List Nat) (ord : List Nat) : List Nat → Verdict
   | [] => .ok ord
   | j :: rest =>
-    let rec go : List Nat → Option Verdict
-      | [] => none
-      | d :: ds =>
-        match jobIndex ord d, jobIndex ord j with
-        | some a, some i => if a ≥ i then some .cycle else go ds
-        | _, _ => some .keyError
-    match go (deps j) with
+    match checkJob ord j (deps j) with
     | some v => v
     | none => checkDeps deps ord rest
 
